@@ -285,6 +285,9 @@ theorem dnsDecodeQuery_enc (b : RxBuf) (hcap : b.plen ≤ b.cap) (id ty : Nat) (
     simp only [bind_ok]
     rw [if_neg (by simp), if_neg (by simp), hname]
     simp only [bind_ok]
+    rw [if_neg (by
+      have h1 : (joinDots ls ++ [0]).take 255 = joinDots ls ++ [0] := List.take_of_length_le (by simp; omega)
+      rw [h1, cstr_append_nul _ hnz]; omega)]
     rw [show checklenFails b 4 (12 + labLen ls + 1) = false by simp [checklenFails]; omega]
     simp only [Bool.false_eq_true, if_false]
     rw [show 12 + labLen ls + 1 = 12 + (labLen ls + 1) by omega, hty']
